@@ -208,7 +208,7 @@ func genCase(r *vf.Run, i int) (*caseSpec, []gen.Entry) {
 }
 
 func main() {
-	vf.Main("C14", "exploration", ruleText, 15, 300, body)
+	vf.Main("C14", "exploration", ruleText, 15, 450, body)
 }
 
 func body(r *vf.Run) {
@@ -221,7 +221,7 @@ func body(r *vf.Run) {
 		childBody(r)
 		return
 	}
-	n := r.N(200, 3000)
+	n := r.N(200, 5000)
 	all := make([]int, n)
 	for i := range all {
 		all[i] = i
@@ -267,10 +267,7 @@ func runBatches(r *vf.Run, stage string, cases []int) {
 			return
 		}
 		if !ex.TimedOut {
-			site := "unknown"
-			if m := frameRe.FindStringSubmatch(ex.Tail); m != nil {
-				site = m[1]
-			}
+			site := crashSite(ex)
 			var descs []string
 			for _, i := range inflight {
 				c, _ := genCase(r, i)
@@ -281,6 +278,27 @@ func runBatches(r *vf.Run, stage string, cases []int) {
 		}
 		remaining = next
 	}
+	if len(remaining) > 0 {
+		r.Inconclusive("cases not executed after repeated crashes of stage " + stage)
+	}
+}
+
+// crashSite names the innermost estargz frame of the goroutine that panicked.
+func crashSite(ex vf.ChildExit) string {
+	text := ex.Tail
+	if b, err := os.ReadFile(ex.Output); err == nil {
+		text = string(b)
+	}
+	for _, marker := range []string{"\npanic: ", "\nfatal error: "} {
+		if i := strings.Index(text, marker); i >= 0 {
+			text = text[i:]
+			break
+		}
+	}
+	if m := frameRe.FindStringSubmatch(text); m != nil {
+		return m[1]
+	}
+	return "unknown"
 }
 
 func lastLines(s string, n int) string {
@@ -357,7 +375,7 @@ func childBody(r *vf.Run) {
 				jw("END", i)
 				dmu.Lock()
 				done++
-				flush := done%50 == 0
+				flush := done%20 == 0
 				dmu.Unlock()
 				if flush {
 					r.FlushPartial()
